@@ -198,6 +198,10 @@ def mt_family(ctx, lines):
 def run(ctx):
     if not cl.prepare(ctx):
         return
+    # the submit paths before the queue (Channel / CallbackSession / C ABI) and the real TCP task's exits (p5)
+    from checks import c10_callbacks
+    if c10_callbacks.run(ctx):
+        return
     r = ctx.rng
     exhaustive = False
     if ctx.replay and 'mt_cases' in ctx.replay:
